@@ -292,22 +292,32 @@ def regex_ip_canon(ast):
     return f(ast)
 
 
+ACTIVE = set()      # finding classes whose witnesses reproduce on the tree being checked (set by select_mode)
+
+
 def classify_unsound(p, q, seq):
-    """which known cause explains that p and q (reported equivalent) differ on seq"""
+    """which known cause explains that p and q (reported equivalent) differ on seq; only causes whose
+    witness reproduces on this tree are considered"""
+    cls = _classify_unsound(p, q, seq)
+    return cls if cls in ACTIVE else None
+
+
+def _classify_unsound(p, q, seq):
     pv, qv = as_pinned_visitor(p), as_pinned_visitor(q)
-    if (pv != p or qv != q) and E.matches(pv, seq) == E.matches(qv, seq):
+    if "C09-visitor-drops-not" in ACTIVE and (pv != p or qv != q) and E.matches(pv, seq) == E.matches(qv, seq):
         return "C09-visitor-drops-not"
     binreg = lambda a: E.special_kind(a[1], a[2]) == "reg" and a[5][0] == "bin"   # noqa: E731
-    if has_atom(p, binreg) and has_atom(q, binreg):
+    if "C09-specials-hex-binary-constant" in ACTIVE and has_atom(p, binreg) and has_atom(q, binreg):
         pb, qb = bin_lowered(p), bin_lowered(q)
         if E.matches(pb, seq) == E.matches(qb, seq):
             return "C09-specials-hex-binary-constant"
+    # the two regular-expression rewrites can both be involved in one pair
     pl, ql = regex_lowered(p), regex_lowered(q)
-    if (pl != p or ql != q) and E.matches(pl, seq) == E.matches(ql, seq):
-        return "C09-regkey-lowercases-regex"
-    pi, qi = regex_ip_canon(p), regex_ip_canon(q)
+    pi, qi = regex_ip_canon(pl), regex_ip_canon(ql)
     if (pi != p or qi != q) and E.matches(pi, seq) == E.matches(qi, seq):
-        return "C09-ip-canonicalises-regex"
+        if (pl != p or ql != q) and E.matches(pl, seq) == E.matches(ql, seq):
+            return "C09-regkey-lowercases-regex"
+        return "C09-ip-canonicalises-regex" if (pi != pl or qi != ql) else "C09-regkey-lowercases-regex"
     return None
 
 
@@ -384,6 +394,8 @@ def select_mode(run):
             run.violations.append(Violation(
                 "equivalent_patterns(%r, %r) is False although the second is the first after one documented absorption" % (p, q),
                 {"kind": "recognise", "p": p, "q": q, "rewrites": ["o-absorb"]}, finding=fid))
+    ACTIVE.clear()
+    ACTIVE.update(v.finding for v in run.violations if v.finding)
     unguarded = "C09-specials-nonstring-constant" in crashed or "C09-specials-embedded-nul" in crashed
     lowers = any(v.finding in ("C09-regkey-lowercases-regex", "C09-ip-canonicalises-regex") for v in run.violations)
     run.coverage["variant"] = {"special_mode": "Unguarded" if unguarded else "Guarded",
@@ -394,9 +406,9 @@ def select_mode(run):
 
 def check(run):
     thorough = run.tier == "thorough"
-    nfam = 1500 if thorough else 300
-    nrule = 3000 if thorough else 400
-    nbound = 1500 if thorough else 150
+    nfam = 1500 if thorough else 240
+    nrule = 3000 if thorough else 320
+    nbound = 1500 if thorough else 120
     import time as _time
     t_phase = {"start": _time.time()}
     depth = 6 if thorough else 4
